@@ -3,7 +3,6 @@ histories, round trip, minimisation, evidence."""
 
 import json
 import os
-import random
 import shutil
 import time
 
@@ -25,7 +24,7 @@ def check(tier, vseed, args):
     first = args.first or 0
     violations, known_lines, harness = [], [], []
     stats = Stats()
-    t0 = time.monotonic()
+    time.monotonic()
 
     # 1. known findings: canonical histories
     kf_info = []
